@@ -14,31 +14,33 @@ import (
 )
 
 type Layout struct {
-	Name           string
-	VideoTS        uint32   // media timescale of the video track
-	FrameDur       uint32   // duration of every video frame in VideoTS
-	SegFrames      []int    // video frames per segment
-	AudioSegs      []int    // audio frames (1024 @ 48 kHz) per audio segment; nil = no audio
-	FrameDurs      []uint32 // if set: video frame durations cycle through these values (variable frame rate) instead of FrameDur
-	Thumbs         int      // number of thumbnail images per loop (0 = none); their duration is loop/Thumbs, whatever the video segments are
-	ImageBeforeTxt bool     // MPD order audio, video, image, text (instead of video, audio, text, image)
-	AudioTS        uint32   // media timescale of the AAC track (0 = 48000); 44100 gives 1024-sample frames of 23.2 ms
-	AudioOnly      bool     // the MPD has no video AdaptationSet (radio): the audio track is the reference track
-	Audio2AC3      bool     // a second audio AdaptationSet (AC-3, 1536-sample frames, same 48 kHz timescale) built from bundled bbb_hevc_ac3_8s
-	TextBothSizes  bool     // subtitle segments carry the sample size both as tfhd default_sample_size and in the trun
-	TextLastShort  uint32   // the last subtitle segment is this many ms shorter than the video segment it goes with
-	LastTfdtJump   uint64   // the last video segment's tfdt is this many ticks later than the end of the one before (a gap the sample durations do not show)
-	VideoTrexDur   uint32   // if != 0: default sample duration in the video init segment's trex (the segments' tfhd says FrameDur, trun has no durations)
-	ExtraOwnAS     bool     // the extra video representation gets an AdaptationSet (and SegmentTimeline) of its own
-	AudioTrexDur   uint32   // if != 0: default sample duration in the audio init segment's trex (the segments' tfhd says 1024)
-	UseTime        bool     // SegmentTimeline + $Time$ templates instead of $Number$ + duration
-	StartNr        int      // startNumber of $Number$ templates
-	Text           bool     // add an stpp track (1 sample per video segment, timescale 1000) -- needs whole-ms segments
-	ExtraVideo     string   // id of a second video representation (same content), "" = none
-	ExtraSegFrames []int    // frames per segment of the second video representation (nil = as the first)
-	VideoID        string
-	TimeOffset     uint64 // first video tfdt (media time of the first VoD segment)
-	Shift          []int  // Shift[i]: the boundary after video segment i is moved by this many ticks (last frame longer, next first frame shorter)
+	Name            string
+	VideoTS         uint32   // media timescale of the video track
+	FrameDur        uint32   // duration of every video frame in VideoTS
+	SegFrames       []int    // video frames per segment
+	AudioSegs       []int    // audio frames (1024 @ 48 kHz) per audio segment; nil = no audio
+	FrameDurs       []uint32 // if set: video frame durations cycle through these values (variable frame rate) instead of FrameDur
+	Thumbs          int      // number of thumbnail images per loop (0 = none); their duration is loop/Thumbs, whatever the video segments are
+	ImageBeforeTxt  bool     // MPD order audio, video, image, text (instead of video, audio, text, image)
+	AudioTS         uint32   // media timescale of the AAC track (0 = 48000); 44100 gives 1024-sample frames of 23.2 ms
+	AudioOnly       bool     // the MPD has no video AdaptationSet (radio): the audio track is the reference track
+	Audio2AC3       bool     // a second audio AdaptationSet (AC-3, 1536-sample frames, same 48 kHz timescale) built from bundled bbb_hevc_ac3_8s
+	TextBothSizes   bool     // subtitle segments carry the sample size both as tfhd default_sample_size and in the trun
+	TextLastShort   uint32   // the last subtitle segment is this many ms shorter than the video segment it goes with
+	LastTfdtJump    uint64   // the last video segment's tfdt is this many ticks later than the end of the one before (a gap the sample durations do not show)
+	VideoFragFrames int      // if != 0: every video segment consists of fragments (moof+mdat) of this many frames
+	VideoTrexOnly   bool     // the video sample duration is signalled by the init segment's trex only (no tfhd default, no durations in trun)
+	VideoTrexDur    uint32   // if != 0: default sample duration in the video init segment's trex (the segments' tfhd says FrameDur, trun has no durations)
+	ExtraOwnAS      bool     // the extra video representation gets an AdaptationSet (and SegmentTimeline) of its own
+	AudioTrexDur    uint32   // if != 0: default sample duration in the audio init segment's trex (the segments' tfhd says 1024)
+	UseTime         bool     // SegmentTimeline + $Time$ templates instead of $Number$ + duration
+	StartNr         int      // startNumber of $Number$ templates
+	Text            bool     // add an stpp track (1 sample per video segment, timescale 1000) -- needs whole-ms segments
+	ExtraVideo      string   // id of a second video representation (same content), "" = none
+	ExtraSegFrames  []int    // frames per segment of the second video representation (nil = as the first)
+	VideoID         string
+	TimeOffset      uint64 // first video tfdt (media time of the first VoD segment)
+	Shift           []int  // Shift[i]: the boundary after video segment i is moved by this many ticks (last frame longer, next first frame shorter)
 }
 
 func (l Layout) audioTS() uint32 {
@@ -135,6 +137,54 @@ func writeSegX(dst string, seqNr, trackID uint32, samples []mp4.FullSample, opti
 	return os.WriteFile(dst, buf.Bytes(), 0o644)
 }
 
+// writeSegFrags writes one segment as several fragments of fragFrames samples each (0 = one fragment). With trexOnly
+// the default sample duration is removed from every tfhd (the trun carries none either), so that only the init
+// segment's trex says how long a sample is.
+func writeSegFrags(dst string, seqNr, trackID uint32, samples []mp4.FullSample, fragFrames int, trexOnly bool) error {
+	if fragFrames <= 0 {
+		fragFrames = len(samples)
+	}
+	seg := mp4.NewMediaSegment()
+	seg.EncOptimize = mp4.OptimizeTrun
+	for i := 0; i < len(samples); i += fragFrames {
+		frag, err := mp4.CreateFragment(seqNr, trackID)
+		if err != nil {
+			return err
+		}
+		frag.EncOptimize = mp4.OptimizeTrun
+		seg.AddFragment(frag)
+		for _, s := range samples[i:min(i+fragFrames, len(samples))] {
+			frag.AddFullSample(s)
+		}
+	}
+	var buf bytes.Buffer
+	if err := seg.Encode(&buf); err != nil {
+		return err
+	}
+	if trexOnly {
+		f, err := mp4.DecodeFile(bytes.NewReader(buf.Bytes()))
+		if err != nil {
+			return err
+		}
+		if len(f.Segments) != 1 {
+			return fmt.Errorf("writeSegFrags: %d segments after decoding", len(f.Segments))
+		}
+		for _, fr := range f.Segments[0].Fragments {
+			tfhd := fr.Moof.Traf.Tfhd
+			if !tfhd.HasDefaultSampleDuration() || fr.Moof.Traf.Trun.HasSampleDuration() {
+				return fmt.Errorf("writeSegFrags: trexOnly needs one constant sample duration")
+			}
+			tfhd.Flags &^= 0x000008
+			tfhd.DefaultSampleDuration = 0
+		}
+		buf.Reset()
+		if err := f.Segments[0].Encode(&buf); err != nil {
+			return err
+		}
+	}
+	return os.WriteFile(dst, buf.Bytes(), 0o644)
+}
+
 // Generate writes the asset under root/<l.Name>. src is the bundled testpic_2s directory.
 func Generate(root, src string, l Layout) error {
 	dir := filepath.Join(root, l.Name)
@@ -158,6 +208,9 @@ func Generate(root, src string, l Layout) error {
 		}
 		if l.VideoTrexDur != 0 {
 			video.init.Moov.Mvex.Trex.DefaultSampleDuration = l.VideoTrexDur
+		}
+		if l.VideoTrexOnly {
+			video.init.Moov.Mvex.Trex.DefaultSampleDuration = l.FrameDur
 		}
 		if err := writeInit(filepath.Join(dir, id, "init.mp4"), video.init, l.VideoTS); err != nil {
 			return err
@@ -197,7 +250,11 @@ func Generate(root, src string, l Layout) error {
 			if l.UseTime {
 				name = fmt.Sprintf("%d.m4s", start)
 			}
-			if err := writeSegOpt(filepath.Join(dir, id, name), uint32(l.StartNr+si), video.trackID(), ss, l.VideoTrexDur != 0); err != nil {
+			if l.VideoFragFrames != 0 || l.VideoTrexOnly {
+				if err := writeSegFrags(filepath.Join(dir, id, name), uint32(l.StartNr+si), video.trackID(), ss, l.VideoFragFrames, l.VideoTrexOnly); err != nil {
+					return err
+				}
+			} else if err := writeSegOpt(filepath.Join(dir, id, name), uint32(l.StartNr+si), video.trackID(), ss, l.VideoTrexDur != 0); err != nil {
 				return err
 			}
 			mySegs = append(mySegs, segT{start, t - start})
@@ -476,6 +533,10 @@ func ExtraLayouts() []Layout {
 		{Name: "x_audio_441", VideoTS: 90000, FrameDur: 3000, SegFrames: []int{60, 60, 60, 60}, AudioSegs: []int{87, 86, 86, 86}, AudioTS: 44100},
 		// a 10 MHz video timescale (as packagers coming from Smooth Streaming use): 25 fps, 2 s segments
 		{Name: "x_ts_10mhz", VideoTS: 10_000_000, FrameDur: 400_000, SegFrames: []int{50, 50, 50, 50}, AudioSegs: []int{94, 94, 94, 93}, Text: true},
+		// video segments of four fragments each whose sample duration is signalled by the init segment's trex only
+		{Name: "x_video_frags_trex_only", VideoTS: 90000, FrameDur: 3000, SegFrames: []int{60, 60, 60, 60}, AudioSegs: []int{94, 94, 94, 93}, VideoFragFrames: 15, VideoTrexOnly: true},
+		// ... and with the duration in every tfhd (the usual low-latency packaging)
+		{Name: "x_video_frags", VideoTS: 90000, FrameDur: 3000, SegFrames: []int{60, 60, 60, 60}, AudioSegs: []int{94, 94, 94, 93}, VideoFragFrames: 15},
 		{Name: "x_rep_ids", VideoTS: 90000, FrameDur: 3000, SegFrames: []int{60, 60, 60, 60}, AudioSegs: []int{94, 94, 94, 93}, VideoID: "V300:b", ExtraVideo: "V300_b"},
 		{Name: "x_two_video_grids", VideoTS: 90000, FrameDur: 3000, SegFrames: []int{60, 60, 60, 60}, ExtraVideo: "V8s", ExtraSegFrames: []int{240}, ExtraOwnAS: true, UseTime: true},
 	}
